@@ -310,6 +310,11 @@ func (e *Env) ident(name string) Val {
 	if v, ok := e.bind[name]; ok {
 		return v
 	}
+	if strings.HasPrefix(name, "result") && len(name) > 6 {
+		if n, err := strconv.Atoi(name[6:]); err == nil && n < len(e.results) {
+			return e.results[n]
+		}
+	}
 	if name == "result" {
 		if len(e.results) == 0 {
 			e.fail("'result' used where the function has no result")
@@ -707,7 +712,6 @@ func (e *Env) sel(x *ESel) Val {
 	e.fail("selector %s on non-struct type %s", x.Sel, t)
 	return Val{}
 }
-
 
 // findField finds a (possibly promoted through embedding) field; returns the index path.
 func findField(named types.Type, st *types.Struct, name string) (int, []int) {
